@@ -1,9 +1,11 @@
 // Whole refinement passes of the real local_mesh_refiner on lattice cells, for validation against spec/Refine/RefinePass.
 //   pass_driver <cases.ndjson> <out.ndjson>
-// A case: {"nn":n, "tris":[[a,b,c],...], "pos":[[x,y,z],...] (integers), "band":[2*lmin^2, 2*lmax^2] (odd integers, lattice units),
-//          "uexp": e (the lattice unit is 2^e metres), "shift":[i,j,k] (lattice units)}
-// Swaps are disabled (the triangle-quality score is not a lattice quantity).  One output record per case: the case itself, the
+// A case: {"nn":n, "tris":[[a,b,c],...], "pos":[[x,y,z],...] (integers), "modes":[m,...] (one pass per entry on the same cell; the rule by which the band
+//          [2*lmin^2, 2*lmax^2] -- odd integers, lattice units -- is derived from the current edge lengths), "rebase":[0|1,...], "uexp": e (the lattice unit is 2^e metres),
+//          "shift":[i,j,k] (lattice units)}
+// Swaps are disabled (the triangle-quality score is not a lattice quantity).  One output record per pass: the cell before it, the
 // operations the hooks of refine_mesh reported, how the pass ended and the projection of the cell afterwards.
+#include <algorithm>
 #include <cmath>
 #include <cstdio>
 #include <cstring>
@@ -48,43 +50,82 @@ int main(int argc, char** argv) {
         for (size_t f = 0; f < r["tris"].size(); f++) { auto t = r["tris"][f].ivec(); for (int a = 0; a < 3; a++) tris.push_back((unsigned)t[a]); }
         cell_ptr c = std::make_shared<cell>(pos, tris, 0);
         c->initialize_cell_properties(true);
-        auto& F = cell_tester::faces(*c);
-        for (size_t f = 0; f < F.size(); f++) F[f].set_face_type_id(f % 3);
-        const double lmin = std::sqrt((double)r["band"][0].i() / 2.) * unit, lmax = std::sqrt((double)r["band"][1].i() / 2.) * unit;
-        local_mesh_refiner lmr(lmin, lmax, false);
-        g_ops.clear(); g_end_phase = 0; g_it = g_nedges = -1;
-        std::string threw;
-        try { lmr.refine_mesh(c); } catch (std::exception& ex) { threw = ex.what(); }
-        vj::out o;
-        o.obj();
-        o.key("id").i(r["id"].i());
-        o.key("nn").i(nn);
-        o.key("tris").arr(); for (size_t f = 0; f < tris.size() / 3; f++) { o.arr().i(tris[3 * f]).i(tris[3 * f + 1]).i(tris[3 * f + 2]).end_arr(); } o.end_arr();
-        o.key("pos").arr(); for (size_t i = 0; i < nn; i++) { auto p = r["pos"][i].ivec(); o.arr().i(p[0]).i(p[1]).i(p[2]).end_arr(); } o.end_arr();
-        o.key("band").arr().i(r["band"][0].i()).i(r["band"][1].i()).end_arr();
-        o.key("ops").arr();
-        for (auto& e : g_ops) { o.obj().key("op").str(e.op).key("a").i(e.a).key("b").i(e.b).key("f1").i(e.f1).key("f2").i(e.f2).end_obj(); }
-        o.end_arr();
-        o.key("outcome").str(g_end_phase == 2 ? "unstable" : (g_end_phase == 1 ? "done" : "none"));
-        o.key("threw").str(threw);
-        o.key("it").i((long long)g_it);
-        o.key("nedges").i((long long)g_nedges);
-        o.key("post"); cell_tester::mesh_json(*c, o);
-        bool integral = true;
-        o.key("postpos").arr();
-        for (auto& n : cell_tester::nodes(*c)) {
-            o.arr();
-            for (int a = 0; a < 3; a++) {
-                const double x = (a == 0 ? n.pos().dx() : (a == 1 ? n.pos().dy() : n.pos().dz())) / unit - (double)sh[a];
-                if (!n.is_used()) { o.i(0); continue; }
-                if (x != std::floor(x) || std::fabs(x) > 1e9) { integral = false; o.i(0); } else o.i((long long)x);
+        {
+            auto& F = cell_tester::faces(*c);
+            for (size_t f = 0; f < F.size(); f++) F[f].set_face_type_id(f % 3);
+        }
+        // several passes on the same cell: before every pass but the first the nodes are displaced on the lattice (a history of
+        // deformation), the normals refreshed as the solver does, and the lists optionally compacted
+        const size_t npass = r["modes"].size();
+        for (size_t p = 0; p < npass; p++) {
+            auto& N = cell_tester::nodes(*c);
+            if (p > 0) {
+                for (size_t i = 0; i < N.size(); i++) if (N[i].is_used()) {
+                    const long d[3] = {(long)((i * 5 + p * 7) % 3) - 1, (long)((i * 3 + p) % 3) - 1, (long)((i + 2 * p) % 3) - 1};
+                    cell_tester::pos(N[i]) = N[i].pos() + vec3(16. * d[0] * unit, 16. * d[1] * unit, 16. * d[2] * unit);
+                }
+                if (r.has("rebase") && r["rebase"][p].i()) c->rebase();
+                c->update_all_face_normals_and_areas();
+            }
+            auto lat = [&](const node& n, int a) { return (a == 0 ? n.pos().dx() : (a == 1 ? n.pos().dy() : n.pos().dz())) / unit - (double)sh[a]; };
+            vj::out o;
+            o.obj();
+            o.key("id").i(r["id"].i() * 10 + (long long)p);
+            o.key("pre"); cell_tester::mesh_json(*c, o);
+            bool integral = true;
+            o.key("prepos").arr();
+            for (auto& n : cell_tester::nodes(*c)) {
+                o.arr();
+                for (int a = 0; a < 3; a++) { const double x = lat(n, a); if (!n.is_used()) { o.i(0); continue; } if (x != std::floor(x) || std::fabs(x) > 1e9) { integral = false; o.i(0); } else o.i((long long)x); }
+                o.end_arr();
             }
             o.end_arr();
+            // the band of this pass, from the current squared edge lengths (lattice units) by the rule the case names
+            std::vector<long long> L;
+            for (const edge& e : c->get_edge_set()) {
+                long long q = 0;
+                for (int a = 0; a < 3; a++) { const long long d = std::llround(lat(N[e.n1()], a)) - std::llround(lat(N[e.n2()], a)); q += d * d; }
+                L.push_back(q);
+            }
+            std::sort(L.begin(), L.end());
+            long long lo = 1, hi = 3;
+            if (!L.empty()) switch (r["modes"][p].i()) {
+                case 0: lo = L.front() / 2; hi = L.back() / 3; break;                                     // some edges too long
+                case 1: lo = L[L.size() / 2]; hi = 4 * L.back(); break;                                   // some too short
+                case 2: lo = L[L.size() / 3]; hi = std::max(L[2 * L.size() / 3], 3 * L[L.size() / 3]); break;   // both
+                case 3: lo = L[L.size() / 2]; hi = 2 * L[L.size() / 2] + L[L.size() / 2] / 2; break;     // a narrow band in the middle
+                case 4: lo = L.front() / 4; hi = L.back() - 1; break;                                     // only the longest edges
+                default: lo = L.front() - 1; hi = 4 * L.back(); break;                                    // nothing to do
+            }
+            long long b0 = 2 * std::max(lo, 1LL) + 1, b1 = 2 * hi + 1;
+            if (b1 <= b0) b1 = b0 + 2;
+            o.key("band").arr().i(b0).i(b1).end_arr();
+            const double lmin = std::sqrt((double)b0 / 2.) * unit, lmax = std::sqrt((double)b1 / 2.) * unit;
+            local_mesh_refiner lmr(lmin, lmax, false);
+            g_ops.clear(); g_end_phase = 0; g_it = g_nedges = -1;
+            std::string threw;
+            try { lmr.refine_mesh(c); } catch (std::exception& ex) { threw = ex.what(); }
+            o.key("ops").arr();
+            for (auto& e : g_ops) { o.obj().key("op").str(e.op).key("a").i(e.a).key("b").i(e.b).key("f1").i(e.f1).key("f2").i(e.f2).end_obj(); }
+            o.end_arr();
+            o.key("outcome").str(g_end_phase == 2 ? "unstable" : (g_end_phase == 1 ? "done" : "none"));
+            o.key("threw").str(threw);
+            o.key("it").i((long long)g_it);
+            o.key("nedges").i((long long)g_nedges);
+            o.key("post"); cell_tester::mesh_json(*c, o);
+            o.key("postpos").arr();
+            for (auto& n : cell_tester::nodes(*c)) {
+                o.arr();
+                for (int a = 0; a < 3; a++) { const double x = lat(n, a); if (!n.is_used()) { o.i(0); continue; } if (x != std::floor(x) || std::fabs(x) > 1e9) { integral = false; o.i(0); } else o.i((long long)x); }
+                o.end_arr();
+            }
+            o.end_arr();
+            o.key("integral").b(integral);
+            o.key("pass").i((long long)p);
+            o.end_obj();
+            fprintf(out, "%s\n", o.text().c_str());
+            if (!integral || c->get_nb_of_nodes() > 60 || c->get_nb_of_faces() < 4) break;   // the cell has left the lattice (or grown too big for TLC)
         }
-        o.end_arr();
-        o.key("integral").b(integral);
-        o.end_obj();
-        fprintf(out, "%s\n", o.text().c_str());
         done++;
     }
     fclose(out);
